@@ -133,12 +133,13 @@ def oracle_case(rng):
     from pytenet import operation as opn
     k = int(rng.integers(0, 7))
     cplx = bool(rng.random() < 0.7)
+    cplx2 = bool(rng.random() < 0.6)     # bra / second operand: real or complex independently of the ket
     L = int(rng.integers(1, 5)); d = int(rng.integers(1, 4)); qd = mpsgen.rand_qd(rng, d)
     tol = 1e-9
     try:
         psi = rnd_like(rng, mpsgen.rand_mps(rng, L=L, qd=qd, maxD=3), cplx)
         if k == 0:
-            chi = rnd_like(rng, mpsgen.rand_mps(rng, L=L, qd=qd, maxD=3, boundary=(int(rng.integers(-1, 2)), int(psi.qD[-1][0]))), cplx)
+            chi = rnd_like(rng, mpsgen.rand_mps(rng, L=L, qd=qd, maxD=3, boundary=(int(rng.integers(-1, 2)), int(psi.qD[-1][0]))), cplx2)
             ref = np.vdot(dense_mps(chi), dense_mps(psi))
             if abs(ptn.vdot(chi, psi) - ref) > tol * max(1, abs(ref)):
                 return 'vdot(chi, psi) != <chi|psi> (first argument conjugated)'
@@ -147,19 +148,19 @@ def oracle_case(rng):
             return None
         L = min(L, 3); d = min(d, 2); qd = qd[:d]
         psi = rnd_like(rng, mpsgen.rand_mps(rng, L=L, qd=qd, maxD=3), cplx)
-        chi = rnd_like(rng, mpsgen.rand_mps(rng, L=L, qd=qd, maxD=3), cplx)
-        o = rnd_like(rng, mpsgen.rand_mpo(rng, L=L, qd=qd, maxD=3), cplx)
+        chi = rnd_like(rng, mpsgen.rand_mps(rng, L=L, qd=qd, maxD=3), cplx2)
+        o = rnd_like(rng, mpsgen.rand_mpo(rng, L=L, qd=qd, maxD=3), bool(rng.random() < 0.6))
         H = dense_mpo(o)
         if k == 1:
             ref = np.vdot(dense_mps(psi), H @ dense_mps(psi))
             return None if abs(ptn.operator_average(psi, o) - ref) <= tol * max(1, abs(ref)) else 'operator_average != <psi|H|psi>'
         if k == 2:
-            chi = rnd_like(rng, mpsgen.rand_mps(rng, L=L, qd=qd, maxD=3, boundary=(int(rng.integers(-1, 2)), 0)), cplx)
+            chi = rnd_like(rng, mpsgen.rand_mps(rng, L=L, qd=qd, maxD=3, boundary=(int(rng.integers(-1, 2)), 0)), cplx2)
             # the two states must have the same trailing bond dimension (1)
             ref = np.vdot(dense_mps(chi), H @ dense_mps(psi))
             return None if abs(ptn.operator_inner_product(chi, o, psi) - ref) <= tol * max(1, abs(ref)) else 'operator_inner_product != <chi|H|psi>'
         if k == 3:
-            rho = rnd_like(rng, mpsgen.rand_mpo(rng, L=L, qd=qd, maxD=3), cplx)
+            rho = rnd_like(rng, mpsgen.rand_mpo(rng, L=L, qd=qd, maxD=3), cplx2)
             ref = np.trace(H @ dense_mpo(rho))
             return None if abs(ptn.operator_density_average(rho, o) - ref) <= tol * max(1, abs(ref)) else 'operator_density_average != tr(op rho)'
         # environments and local maps
